@@ -193,6 +193,7 @@ func (t *domainRoutingTracker) syncOwner(
 		}
 	}
 
+	verifObserveDomainRouting(ownerKey, keysToUpdate, valuesToUpdate, keysToDelete)
 	if m != nil {
 		if len(keysToUpdate) > 0 {
 			if _, err := BpfMapBatchUpdate(m, keysToUpdate, valuesToUpdate, &ebpf.BatchOptions{
